@@ -44,7 +44,7 @@ func ruleSync(ctx context.Context, res daemon.PodResources) error {
 	}
 
 	for _, conf := range netConf {
-		if conf.BasicInfo == nil || conf.ENIInfo == nil ||
+		if conf == nil || conf.BasicInfo == nil || conf.ENIInfo == nil ||
 			conf.BasicInfo.PodIP == nil {
 			continue
 		}
@@ -95,8 +95,8 @@ func ruleSync(ctx context.Context, res daemon.PodResources) error {
 			setUp.ENIGatewayIP.SetIP(conf.ENIInfo.GatewayIP.IPv6)
 		}
 
-		setUp.GatewayIP.SetIP(conf.BasicInfo.GatewayIP.IPv4)
-		setUp.GatewayIP.SetIP(conf.BasicInfo.GatewayIP.IPv6)
+		setUp.GatewayIP.SetIP(conf.BasicInfo.GetGatewayIP().GetIPv4())
+		setUp.GatewayIP.SetIP(conf.BasicInfo.GetGatewayIP().GetIPv6())
 
 		// 1. route point to hostVeth
 		table := utils.GetRouteTableID(eni.Attrs().Index)
